@@ -140,8 +140,37 @@ def boundary_grid(run):
     return out
 
 
-def observe(src, stages, literal=False, aliases=None):
-    text, o = sc.run_pipeline(src, stages, literal=literal, aliases=aliases)
+def hashed_grid():
+    """EQUAL dicts with different insertion orders through every use of a hash: distinct (with and without selector),
+    sets and set algebra, membership, groupBy / toDict keys, dict keys"""
+    A, B = {"a": 1, "b": "x"}, {"b": "x", "a": 1}
+    C, D = {"a": 2, "b": "y"}, {"b": "y", "a": 2}
+    N1, N2 = {"a": A, "b": 0}, {"b": 0, "a": B}            # nested: equal at depth too
+    out = []
+    for vals in ((A, B), (A, C, B, D), (B, A, A), (N1, N2), (A,), (C, D, A, B, D)):
+        for kind in ("tuple", "iter"):
+            for st in ([("distinct", None)], [("distinct", ("id",))], [("distinct", ("pair",))], [("toSet",), ("len",)],
+                       [("groupBy", ("id",), None), ("len",)], [("groupBy", ("id",), ("field", "b"))], [("toDict", ("id",), None), ("len",)],
+                       [("indexOf", B)], [("lastIndexOf", A)], [("contains", D)], [("in", B)], [("toSet",), ("in", B)], [("toSet",), ("contains", A)],
+                       [("select", ("pair",)), ("distinct", None)], [("self", ("join", ("eq2",), ("fst",)), True)],
+                       [("toSet",), ("union", (B,)), ("len",)], [("toSet",), ("intersect", (B,)), ("len",)],
+                       [("toSet",), ("difference", (B, D)), ("len",)], [("toSet",), ("symmetricDifference", (B,)), ("len",)],
+                       [("toSet",), ("setAdd", (B, D)), ("len",)], [("toSet",), ("setRemove", (A,)), ("len",)],
+                       [("zip", (vals[::-1],)), ("where", ("id",)), ("len",)]):
+                out.append(((kind, tuple(vals)), st))
+        out.append((("set", tuple(vals)), [("len",)]))
+        out.append((("set", tuple(vals)), [("union", tuple(vals[::-1])), ("len",)]))
+        out.append((("set", tuple(vals)), [("in", B)]))
+    # dicts as dict keys
+    out.append((("dict", ()), [("dictSet", A, 1), ("dictSet", B, 2), ("len",)]))
+    out.append((("dict", ()), [("dictSet", A, 1), ("dictSet", B, 2), ("dictGet", A, sc.NOSEED)]))
+    out.append((("dict", ((1, A), (2, B))), [("valuesList",), ("distinct", None)]))
+    out.append((("dict", ((1, A), (2, B), (3, C))), [("containsValue", B)]))
+    return out
+
+
+def observe(src, stages, literal=False, aliases=None, conv="camel"):
+    text, o = sc.run_pipeline(src, stages, literal=literal, aliases=aliases, conv=conv)
     return text, o
 
 
@@ -151,18 +180,22 @@ def correspondence(run):
         len(reg), len([n for n in reg if n in mod]), ", ".join(sorted(n for n in reg if n not in mod)) or "-"), flush=True)
     todo = []
     for c in load_corpus():
-        todo.append((c["src"], c["stages"], c.get("literal", False), None))
+        todo.append((c["src"], c["stages"], c.get("literal", False), None, c.get("conv", "camel")))
     for src, stages in boundary_grid(run):
-        todo.append((src, stages, False, None))
+        todo.append((src, stages, False, None, sc.CONVS[len(todo) % 3]))      # every grid case under one of the three conventions
+    for src, stages in hashed_grid():
+        for literal in (False, True):
+            todo.append((src, stages, literal, None, sc.CONVS[len(todo) % 3]))
     n = run.n(2500, 40000)
     for _ in range(n):
         src, stages = sc.gen_pipeline(run.rng, 4)
         literal = run.rng.random() < 0.4
         aliases = [run.rng.randrange(2) for _ in stages]
-        todo.append((src, stages, literal, aliases))
+        todo.append((src, stages, literal, aliases, run.rng.choice(["camel", "camel", "camel", "python", "custom"])))
     cases, meta = [], []
-    for src, stages, literal, aliases in todo:
-        text, o = observe(src, stages, literal, aliases)
+    for src, stages, literal, aliases, conv in todo:
+        text, o = observe(src, stages, literal, aliases, conv)
+        run.count("convention:" + conv)
         nontriv = bool(stages) and not (src[0] in ("tuple", "iter", "set", "dict") and len(src[1]) == 0) or src[0] in ("generate", "generateMany", "sequence")
         run.case((src, sc.stages_json(stages)), nontrivial=nontriv)
         run.count("source:" + src[0])
@@ -174,7 +207,7 @@ def correspondence(run):
             run.sample({"yaql": text, "source": [src[0], sc.tojson(src[1]) if src[0] in ("tuple", "iter", "set") else repr(src[1:])],
                         "observed": repr(o)})
         cases.append(sc.case_term(src, stages, o))
-        meta.append((src, stages, literal, aliases, text, o))
+        meta.append((src, stages, literal, aliases, text, o, conv))
     bad = run.coq_mismatches(sc.HEADER, "case", "case_ok", cases, shard=400)
     for i in bad[:8]:
         report_mismatch(run, *meta[i])
@@ -221,7 +254,7 @@ def model_result(run, src, stages):
         return "model evaluation failed: %r" % (e,)
 
 
-def shrink(run, src, stages, literal, aliases):
+def shrink(run, src, stages, literal, aliases, conv="camel"):
     """one round of candidates (drop a stage / shorten the source), all evaluated in one Coq call"""
     cands = []
     # set iteration order is outside the model: pipelines that go through a set keep their stages
@@ -239,7 +272,7 @@ def shrink(run, src, stages, literal, aliases):
         try:
             if any(s[0] == "cycle" for s in st2) and not any(a[0] == "cycle" and b[0] == "take" for a, b in zip(st2, st2[1:])):
                 continue          # endless without its take: not a case of the property
-            _, o = observe(s2, st2, literal, None)
+            _, o = observe(s2, st2, literal, None, conv)
             if o[0] == "err" and o[1] == "EOther":
                 continue
             terms.append(sc.case_term(s2, st2, o))
@@ -261,16 +294,16 @@ def shrink(run, src, stages, literal, aliases):
     return best
 
 
-def report_mismatch(run, src, stages, literal, aliases, text, o):
+def report_mismatch(run, src, stages, literal, aliases, text, o, conv="camel"):
     for _ in range(4):
-        s2, st2 = shrink(run, src, stages, literal, aliases)
+        s2, st2 = shrink(run, src, stages, literal, aliases, conv)
         if (s2, st2) == (src, stages):
             break
         src, stages, aliases = s2, st2, None
-    text, o = observe(src, stages, literal, aliases)
-    fns = "/".join(s[0] for s in stages)
+    text, o = observe(src, stages, literal, aliases, conv)
+    fns = "/".join(s[0] for s in stages) + ("" if conv == "camel" else " [context with the %s naming convention]" % conv)
     run.fail("violation", "collection function(s) %s: the implementation's result differs from the reference model" % fns,
-             {"kind": "pipeline", "yaql": text, "src": [src[0]] + [sc.tojson(x) for x in src[1:]],
+             {"kind": "pipeline", "yaql": text, "conv": conv, "src": [src[0]] + [sc.tojson(x) for x in src[1:]],
               "stages": sc.stages_json(stages), "literal": literal,
               "observed": repr(o), "model": model_result(run, src, stages),
               "theorems": ["C13_stream_is_list", "C13_order_by", "C13_group_by"],
@@ -577,7 +610,7 @@ def replay(run, data):
         return not run.coq_mismatches(sc.HEADER, "lcase", "lcase_ok", [term])
     if kind == "pipeline":
         src, stages = src_from_json(d["src"]), sc.stages_from_json(d["stages"])
-        _, o = observe(src, stages, d.get("literal", False), None)
+        _, o = observe(src, stages, d.get("literal", False), None, d.get("conv", "camel"))
         return not run.coq_mismatches(sc.HEADER, "case", "case_ok", [sc.case_term(src, stages, o)])
     l = sc.fromjson(d["input"])
     before = len(run.failures)
